@@ -37,7 +37,7 @@ From RU Require Import Base.Prelude Base.Utf8 Base.Utf8Facts Model.AsciiSet Gen.
   Proofs.C08_Input Proofs.C08_Simple Proofs.C08_Contain Proofs.C08_NoAuth Proofs.C08_Absolute Proofs.C08_Relative Proofs.C08_RelEval
   Proofs.C08_RelPath Proofs.C08_RelJoin Proofs.C08_RelMr Proofs.C08_RelLaw Proofs.C08_RelCanon Proofs.C08_RelNoAuth
   Proofs.C02_AuthParts Proofs.C02_Auth Proofs.C02_AuthSp Proofs.C02_AuthMain Proofs.C08_AbsNonfile Proofs.C08_RelAuth Proofs.C08_RelRecog Proofs.C08_Parsed Proofs.C08_ContainFile
-  Proofs.C02_Hist.
+  Proofs.C02_Hist Proofs.C02_Canon Proofs.C02_SetHostCanon Proofs.C02_Reach5 Proofs.C09_Host Proofs.C02_Reach4 Model.Host Proofs.C08_Reach.
 From RU Require Properties.C02.
 Open Scope N_scope.
 Open Scope list_scope.
@@ -646,6 +646,72 @@ Theorem C08_2_fixed :
   end = true.
 Proof. exact F_C08_2_fixed. Qed.
 Print Assumptions C08_2_fixed.
+
+(* ================= 7. both laws for the records of C02's histories (ReachC4) ================= *)
+(* ReachC4 (Proofs/C02_Reach5.v, the quantifier of C02_reach_partial4): parse results of non-file schemes (with or
+   without a base-less override), joins with tail references, every mutator of canon_op4 (all setters of the API and
+   of quirks except path_segments_mut sessions on hierarchical records) outside the known step classes,
+   query_pairs_mut sessions.  Host functions under HostOK2 (satisfiable: C08_HostOK2_inhabited) + host_nonempty
+   (the host parsers refuse the empty string; true of the host model, C02_Reach4.host_nonempty_model). *)
+Theorem C08_absolute_reach : forall dbg hp hpo hd, HostOK2 hp hpo hd -> host_nonempty hp hpo ->
+  forall u b, ReachC4 dbg hp hpo hd u -> join dbg hp hpo hd b (utf8_lossy (ser u)) = POk u.
+Proof. exact absolute_reach. Qed.
+Check C08_absolute_reach : forall dbg hp hpo hd, HostOK2 hp hpo hd -> host_nonempty hp hpo ->
+  forall u b, ReachC4 dbg hp hpo hd u -> parse_url dbg hp hpo hd None (Some b) (utf8_lossy (ser u)) = POk u.
+Print Assumptions C08_absolute_reach.
+Theorem C08_relative_reach : forall dbg hp hpo hd, HostOK2 hp hpo hd -> host_nonempty hp hpo ->
+  forall b t r, ReachC4 dbg hp hpo hd b -> ReachC4 dbg hp hpo hd t ->
+  mr_ok b t = true -> make_relative dbg b t = Some (Some r) ->
+  join dbg hp hpo hd b r = POk t.
+Proof. exact relative_reach. Qed.
+Check C08_relative_reach : forall dbg hp hpo hd, HostOK2 hp hpo hd -> host_nonempty hp hpo ->
+  forall b t r, ReachC4 dbg hp hpo hd b -> ReachC4 dbg hp hpo hd t ->
+  mr_ok b t = true -> make_relative dbg b t = Some (Some r) ->
+  parse_url dbg hp hpo hd None (Some b) r = POk t.
+Print Assumptions C08_relative_reach.
+(* the same for Canon records of any origin (C02_Canon.Canon: one of C02's four canonical forms; opaque records are
+   outside MR_ok) - HostOK2 only *)
+Theorem C08_absolute_Canon : forall dbg hp hpo hd, HostOK2 hp hpo hd ->
+  forall u b, Canon hp hpo hd u -> join dbg hp hpo hd b (utf8_lossy (ser u)) = POk u.
+Proof. exact absolute_Canon. Qed.
+Print Assumptions C08_absolute_Canon.
+Theorem C08_relative_Canon : forall dbg hp hpo hd, HostOK2 hp hpo hd ->
+  forall b t r, Canon hp hpo hd b -> Canon hp hpo hd t ->
+  mr_ok b t = true -> make_relative dbg b t = Some (Some r) ->
+  join dbg hp hpo hd b r = POk t.
+Proof. exact relative_Canon. Qed.
+Print Assumptions C08_relative_Canon.
+(* on the parser model linked with the host model Model/Host.v: relative to IdnaOK idna only *)
+Theorem C08_relative_reach_model : forall dbg idna, IdnaOK idna -> forall b t r,
+  ReachC4 dbg (host_parse idna) host_parse_opaque host_display b ->
+  ReachC4 dbg (host_parse idna) host_parse_opaque host_display t ->
+  mr_ok b t = true -> make_relative dbg b t = Some (Some r) ->
+  parse_url dbg (host_parse idna) host_parse_opaque host_display None (Some b) r = POk t.
+Proof. exact relative_reach_model. Qed.
+Print Assumptions C08_relative_reach_model.
+Theorem C08_absolute_reach_model : forall dbg idna, IdnaOK idna -> forall u b,
+  ReachC4 dbg (host_parse idna) host_parse_opaque host_display u ->
+  parse_url dbg (host_parse idna) host_parse_opaque host_display None (Some b) (utf8_lossy (ser u)) = POk u.
+Proof. exact absolute_reach_model. Qed.
+Print Assumptions C08_absolute_reach_model.
+(* non-vacuity, host model with idna_clean: base a://u:pw@h.x:81/p?q -> quirks hostname("example.org") ->
+   set_path("/a/b/c"); target a://u:pw@example.org:81/a/d/e -> set_fragment("f"); inside MR_ok, make_relative answers
+   "../d/e#f", the join returns the target; the base's serialization resolves to itself against the target *)
+Example C08_reach_inhabited :
+  match m_hist "a://u:pw@h.x:81/p?q" [OQHostname (B "example.org"); OSetPath (B "/a/b/c")],
+        m_hist "a://u:pw@example.org:81/a/d/e" [OSetFragment (Some (B "f"))] with
+  | Some b, Some t =>
+      list_eqb (ser b) (B "a://u:pw@example.org:81/a/b/c?q") && list_eqb (ser t) (B "a://u:pw@example.org:81/a/d/e#f")
+      && mr_ok b t
+      && match make_relative true b t with
+         | Some (Some r) => list_eqb r (B "../d/e#f")
+                            && match m_join b r with POk v => url_eqb v t | _ => false end
+         | _ => false
+         end
+      && match m_join t (utf8_lossy (ser b)) with POk v => url_eqb v b | _ => false end
+  | _, _ => false
+  end = true.
+Proof. exact reach_mr_example. Qed.
 
 (* ================= non-vacuity ================= *)
 Example C08_inhabited :
